@@ -1516,3 +1516,85 @@ pub fn hello_grid(server: bool, dtls: bool, full: bool, chunk: usize, nchunks: u
     }
     out
 }
+
+// ---------------------------------------------------------------- message streams
+
+/// Long streams (>= 17000 bytes) of record payload per content type: any prefix of a stream is a record
+/// payload made of whole messages followed by a cut / undecodable tail. (type, bytes)
+pub fn message_streams() -> Vec<(u8, Vec<u8>)> {
+    const N: usize = 17000;
+    let mut v: Vec<(u8, Vec<u8>)> = Vec::new();
+    let pad = |mut s: Vec<u8>, f: &dyn Fn(usize) -> u8| -> Vec<u8> {
+        let mut i = 0;
+        while s.len() < N {
+            s.push(f(i));
+            i += 1;
+        }
+        s
+    };
+    for k in 0..4usize {
+        let hr: Vec<u8> = std::iter::repeat([0u8, 0, 0, 0]).take(k).flatten().collect();
+        v.push((0x16, pad(hr.clone(), &|_| 0xff)));
+        v.push((0x16, pad(hr.clone(), &|i| (i % 251) as u8 + 1)));
+        let mut s = hr.clone();
+        s.extend([0x63, 0, 0, 2, 0xaa, 0xbb]);
+        v.push((0x16, pad(s, &|_| 0)));
+    }
+    // ServerHelloDone, then a Certificate announcing 0x5000 bytes
+    let mut s = vec![0x0e, 0, 0, 0, 0x0b, 0x00, 0x50, 0x00, 0x00, 0x4f, 0xfd];
+    s.extend([0x00, 0x4f, 0xfa]);
+    v.push((0x16, pad(s, &|i| (i % 253) as u8)));
+    // small valid messages only
+    v.push((0x16, pad(Vec::new(), &|i| [0x0e, 0, 0, 0][i % 4])));
+    // a realistic server flight, then Finished messages
+    let mut s = Vec::new();
+    s.extend(hs(2, |w| server_hello_body(w, 0x0303, 32, ExtBlock::Empty)).buf);
+    s.extend(hs(11, |w| certificate_body(w, &[100, 100, 100])).buf);
+    s.extend(hs(12, |w| {
+        fill(w, 40, 3);
+    }).buf);
+    s.extend(hs(14, |_| {}).buf);
+    let fin = hs(20, |w| {
+        fill(w, 12, 0x77);
+    }).buf;
+    while s.len() < N {
+        s.extend(&fin);
+    }
+    v.push((0x16, s));
+    // 1000-byte Finished messages
+    let fin = hs(20, |w| {
+        fill(w, 1000, 0x55);
+    }).buf;
+    let mut s = Vec::new();
+    while s.len() < N {
+        s.extend(&fin);
+    }
+    v.push((0x16, s));
+    // a ClientHello, then key exchange
+    let mut s = hs(1, |w| client_hello_body(w, 0x0303, 0, 2, 1, ExtBlock::Bytes(9), None)).buf;
+    s.extend(hs(16, |w| {
+        fill(w, 66, 4);
+    }).buf);
+    v.push((0x16, pad(s, &|i| [0x14u8, 0, 0, 1, 9][i % 5])));
+    // other content types
+    v.push((0x15, pad(Vec::new(), &|i| [1u8, 0][i % 2])));
+    v.push((0x15, pad(vec![2, 40], &|i| (i % 7) as u8)));
+    v.push((0x14, pad(Vec::new(), &|_| 1)));
+    v.push((0x14, pad(vec![1, 1], &|i| (i % 3) as u8)));
+    v.push((0x18, pad(vec![1, 0, 3, 9, 9, 9], &|i| (i % 5) as u8)));
+    v.push((0x18, pad(vec![2, 0x40, 0x00], &|_| 0x42)));
+    v.push((0x17, pad(Vec::new(), &|i| (i % 256) as u8)));
+    v
+}
+
+/// the payload sizes at which the streams are cut
+pub fn stream_cuts(thorough: bool) -> Vec<usize> {
+    let mut v: Vec<usize> = (0..=if thorough { 2200 } else { 700 }).collect();
+    v.extend(16376..=16392);
+    v.extend(16636..=16640);
+    v.extend((701..16376).step_by(if thorough { 61 } else { 509 }));
+    v.extend([1024, 2048, 4096, 8192, 4095, 4097, 8191, 8193, 16383, 16385]);
+    v.sort();
+    v.dedup();
+    v
+}
